@@ -919,6 +919,9 @@ class Engine:
             for k, v in zip(ks, vs):
                 t = z3.Store(t, k.t, v.t)
             return Val(TSpace, t)
+        r = self.reg._hook("dict_literal", self, st, ks, vs, e)
+        if r is not None:
+            return r
         raise OutOfSubset("dict literal")
 
     def e_Set(self, e, st):
@@ -952,6 +955,8 @@ class Engine:
             a = b.ty.empty()        # an empty literal takes the container type of the other branch
         if isinstance(b.ty, TEmpty) and hasattr(a.ty, "empty") and not isinstance(a.ty, TEmpty):
             b = a.ty.empty()
+        if isinstance(a, _StrLit) and isinstance(b, _StrLit):
+            return a if a.s == b.s else _StrChoice(c, a, b)
         if a.ty != b.ty:
             if isinstance(a.ty, TOpt) and a.ty.elem == b.ty:
                 b = self.coerce(b, a.ty, st)
@@ -1252,6 +1257,8 @@ class Engine:
         if isinstance(ty, TTuple) and z3.is_int_value(idx.t):
             k = idx.t.as_long()
             return Val(ty.elems[k], ty.get(base.t, k))
+        if isinstance(ty, TTuple) and idx.ty == TBool and len(ty.elems) == 2 and ty.elems[0] == ty.elems[1]:
+            return Val(ty.elems[0], z3.If(idx.t, ty.get(base.t, 1), ty.get(base.t, 0)))      # t[False] = t[0], t[True] = t[1]
         if isinstance(base, _PyTuple) and z3.is_int_value(idx.t):
             return base.items[idx.t.as_long()]
         if isinstance(base, _PyRecord):
